@@ -26,7 +26,7 @@ vars == <<bus, bank>>
 Init == bus = <<>> /\ bank = -1
 Pick == /\ bank = -1
         /\ \E B \in Buses, b \in 0..255 :
-              /\ b % NShards = Shard
+              /\ ((b \div 8) + b) % NShards = Shard        \* spreads every 8th bank over all shards
               /\ (B \in {LoROM, HiROM} \/ b \in InterestingBanks(B))
               \* with all 65536 offsets per bank: the banks at the ends of every range and every 8th bank
               /\ (~AllOffsets \/ b \in InterestingBanks(B) \/ b % 8 = 0 \/ b \in {111, 112, 125, 128, 207, 208, 63, 64, 191, 192, 255})
